@@ -499,3 +499,83 @@ func PathOfResolved(info *types.Info, body ast.Node, e ast.Expr) (AccessPath, bo
 	}
 	return p, true
 }
+
+// aliasResolvedString renders a selector/index chain with its root expanded
+// through single-definition local aliases (`head := v.Cells[0]` makes
+// `head.quoted` read `v.Cells[0].quoted`), so that a test written on the alias
+// and one written on the full path are recognised as the same test.
+func aliasResolvedString(info *types.Info, body ast.Node, e ast.Expr) string {
+	return aliasResolvedDepth(info, body, e, 0)
+}
+
+func aliasResolvedDepth(info *types.Info, body ast.Node, e ast.Expr, depth int) string {
+	e = ast.Unparen(e)
+	full := types.ExprString(e)
+	if body == nil || depth > 3 {
+		return full
+	}
+	root := e
+	for {
+		switch x := ast.Unparen(root).(type) {
+		case *ast.SelectorExpr:
+			root = x.X
+			continue
+		case *ast.IndexExpr:
+			root = x.X
+			continue
+		}
+		break
+	}
+	id, ok := ast.Unparen(root).(*ast.Ident)
+	if !ok || !strings.HasPrefix(full, id.Name) {
+		return full
+	}
+	v, ok := info.Uses[id].(*types.Var)
+	if !ok || v.IsField() || v.Pkg() == nil || v.Parent() == v.Pkg().Scope() {
+		return full
+	}
+	var def ast.Expr
+	n := 0
+	ast.Inspect(body, func(m ast.Node) bool {
+		switch x := m.(type) {
+		case *ast.AssignStmt:
+			for i, l := range x.Lhs {
+				if lid, ok := l.(*ast.Ident); ok && (info.Defs[lid] == v || info.Uses[lid] == v) {
+					n++
+					if len(x.Lhs) == len(x.Rhs) {
+						def = x.Rhs[i]
+					} else {
+						def = nil
+						n++
+					}
+				}
+			}
+		case *ast.IncDecStmt:
+			if lid, ok := x.X.(*ast.Ident); ok && info.Uses[lid] == v {
+				n++
+			}
+		case *ast.RangeStmt:
+			for _, l := range []ast.Expr{x.Key, x.Value} {
+				if lid, ok := l.(*ast.Ident); ok && (info.Defs[lid] == v || info.Uses[lid] == v) {
+					n += 2
+				}
+			}
+		case *ast.UnaryExpr:
+			if x.Op == token.AND {
+				if lid, ok := ast.Unparen(x.X).(*ast.Ident); ok && info.Uses[lid] == v {
+					n += 2
+				}
+			}
+		}
+		return true
+	})
+	if n != 1 || def == nil {
+		return full
+	}
+	switch ast.Unparen(def).(type) {
+	case *ast.SelectorExpr, *ast.IndexExpr, *ast.Ident:
+	default:
+		return full
+	}
+	return aliasResolvedDepth(info, body, def, depth+1) + full[len(id.Name):]
+}
